@@ -12,7 +12,7 @@ PROPS["C14"] = P(
     "distinct_nontrivial = number of distinct cells (structure, read or write operation, exact width or edge length, garbage kind, number of spare words, backend kind) whose case really had "
     "storage bits beyond the contents (len*width not a multiple of the word size, or at least one spare word) and, for reads, more than one element",
     dict(builds=["DBG", "UBC"]),
-    dict(builds=["DBG", "UBC", "ASAN", "MIRI"], shards={"MIRI": 8, "ASAN": 8}),
+    dict(builds=["DBG", "UBC", "ASAN", "MIRI"], shards={"MIRI": 12, "ASAN": 8}),
     hang="violation",
     level_text="Exploration: the real readers and writers are run on vectors over deliberately dirty caller-supplied storage; reads are compared with a model, writes with independently computed "
     "write masks over all storage words and canaries, in a debug build and a release build with -Zub-checks; thorough adds ASan and Miri (writes past a &mut sub-slice, reads of spare words). "
